@@ -28,7 +28,10 @@ build_rule(name="a", cmd="x", srcs={"s1": ["a.txt"], "s2": ["b.txt"], "s0": ["c.
 build_rule(name="b", cmd={"opt": "o", "dbg": "d", "cover": "c"}, outs=["b.out"], requires=["py", "go"], visibility=["PUBLIC"])
 `,
 	"p/a.txt": "a", "p/b.txt": "b", "p/c.txt": "c",
+	// q overrides a configuration value that is the DEFAULT of an argument of a function every package calls (build_rule's
+	// exit_on_error=CONFIG.EXIT_ON_ERROR): the default must be the calling package's, whichever package called first
 	"q/BUILD": `
+package(exit_on_error = True)
 build_rule(name="c", cmd="y", srcs=["c.txt"], outs=["c.out"], deps=["//p:b"], env={"Z": "1", "Y": "2"}, data={"d2": ["x.txt"], "d1": ["y.txt"]}, test=True, test_cmd={"opt": "t", "dbg": "u"}, visibility=["PUBLIC"])
 `,
 	"q/c.txt": "c", "q/x.txt": "x", "q/y.txt": "y",
